@@ -402,6 +402,15 @@ func (n *Net) RoundTrip(req *http.Request) (*http.Response, error) {
 	// wait for the response headers
 	for {
 		c.mu.Lock()
+		if err := req.Context().Err(); err != nil && !c.Handed {
+			// the transport's wait selects between the context and the response; once the context
+			// is done the error is a legal outcome, and a response that only exists *because* the
+			// cancellation made the handler return can never reach a real client
+			c.mu.Unlock()
+			s.Yield("net.headers#cancelled")
+			c.clientAbort()
+			return nil, err
+		}
 		if c.headersSent {
 			c.mu.Unlock()
 			break
@@ -552,10 +561,12 @@ func (w *respWriter) Write(p []byte) (int, error) {
 	if !c.wroteHeader {
 		c.wroteHeader = true
 		c.Status = 200
-		if w.hdr.Get("Content-Type") == "" {
-			w.hdr.Set("Content-Type", http.DetectContentType(p))
-		}
 		c.RespHeader = w.hdr.Clone()
+	}
+	if !c.headersSent && len(c.buf) == 0 && len(p) > 0 && c.RespHeader.Get("Content-Type") == "" {
+		// net/http sniffs the first bytes written before the header goes out, with or without an
+		// explicit WriteHeader
+		c.RespHeader.Set("Content-Type", http.DetectContentType(p))
 	}
 	c.mu.Unlock()
 	f := c.n.Faults
@@ -631,6 +642,8 @@ func (w *respWriter) finish() {
 
 // ---- client side ---------------------------------------------------------------------------------
 
+func isCleanClose(err error) bool { return err == io.ErrUnexpectedEOF || err == io.EOF }
+
 type respBody struct {
 	c   *Conn
 	ctx context.Context
@@ -653,7 +666,10 @@ func (b *respBody) Read(p []byte) (int, error) {
 			c.mu.Unlock()
 			return 0, err
 		}
-		if c.serverErr != nil {
+		avail := c.flushed - c.readOff
+		// a reset discards what was not read yet; after a close without the final chunk (cut,
+		// aborted handler) the bytes flushed before it are still delivered, then the error
+		if c.serverErr != nil && (avail == 0 || !isCleanClose(c.serverErr)) {
 			err := c.serverErr
 			c.ReadErr = err.Error()
 			c.mu.Unlock()
@@ -662,7 +678,6 @@ func (b *respBody) Read(p []byte) (int, error) {
 			}
 			return 0, err
 		}
-		avail := c.flushed - c.readOff
 		if avail > 0 {
 			c.mu.Unlock()
 			d := 0
@@ -670,8 +685,8 @@ func (b *respBody) Read(p []byte) (int, error) {
 				d = s.IOPoint(fmt.Sprintf("net.read c%d", c.ID), []int{100, c.n.Faults.ShortRead, c.n.Faults.ShortRead}, c)
 			}
 			c.mu.Lock()
-			if c.serverErr != nil {
-				// the connection was torn down at this very point: unread data is gone with it
+			if c.serverErr != nil && !isCleanClose(c.serverErr) {
+				// the connection was reset at this very point: unread data is gone with it
 				err := c.serverErr
 				c.ReadErr = err.Error()
 				c.mu.Unlock()
